@@ -226,6 +226,13 @@ def run(chk, tier, scale=1.0):
         for tmpl in (b'a "%s"\n', b'a "%s', b'a "xy%s"\n', b'a "%sxy"\n', b'a ("%s", "b")\n', b'"%s" v\n', b'o { k "%s" }\n', b'a "%s" "%s"\n', b'a b, "%s"\n',
                      b'a "%s"', b'a "%s";b "%s"\n'):
             specials.append(tmpl.replace(b"%s", esc))
+    # large files whose size is, or is next to, a whole number of memory pages (valid ones, and ones with the error at the very end)
+    body = b'alpha { s "big"; l ("p", "q"); };\nloose "w";\n'
+    for size in (4096, 8192, 65536, 65537, 69632, 69631, 131072, 262144):
+        pad = size - len(body)
+        specials.append(body + b"/*" + b"x" * (pad - 5) + b"*/\n")
+        specials.append(body + b" " * (pad - 9) + b'broken "\n')
+        specials.append(body + b"//" + b"y" * (pad - 2))
     for i in range(int(40 * (1 if tier == "quick" else 10))):
         specials.append(bytes(rng.randrange(256) for _ in range(rng.choice([1, 3, 10, 50, 200, 1000]))))
         specials.append(bytes(rng.choice(b'ab {}(),;"\\/*\n ') for _ in range(rng.choice([3, 10, 50, 200]))))
@@ -249,7 +256,7 @@ def run(chk, tier, scale=1.0):
     chk.count("truncation_points", ntrunc)
     chk.count("valid_files", len(files))
     chk.rule = ("fault enumeration: %d generated valid files truncated at every byte offset, single-byte substitutions/insertions/deletions "
-                "from a hostile alphabet, special inputs (empty, missing, directory, 1000-level nesting, 64 KiB string, random bytes), each loaded "
+                "from a hostile alphabet, special inputs (empty, missing, directory, 1000-level nesting, 64 KiB string, files of 4 KiB-256 KiB whose size is or is next to a whole number of pages, random bytes), each loaded "
                 "on top of one of 8 prior configurations (with registered nodes of all four kinds and hooks); after every case a fixed valid file is loaded: if the "
                 "hostile load failed, tree and hook log must then equal those of a run that never saw the hostile file; distinct = (prior, file bytes); "
                 "every case is non-trivial (it performs a load on a non-empty prior state or an empty one)" % len(files))
